@@ -123,12 +123,14 @@ def oracle(prop, result):
         for i, v in st["insts"].items():
             n = i.split("#")[0]
             ups = jobs[n].get("deps", {})
-            if v["pc"] in ("reg", "regdone") or st["exitmode"]:
+            if v["pc"] in ("reg", "regdone") or st["exitmode"] or jobs[n].get("codes", [0])[0] == 8:
                 continue
             if all(st["world"][u]["done"] for u in ups) and not (st["world"][n]["launches"] > 0 or st["world"][n]["done"]):
                 return len(evs), f"{n} does not depend on a failed job but was never run"
     if result["verdict"]["end"] == "hang" and prop in ("C06", "C09"):
         return len(evs), "quiescent hang: the main thread is blocked and nothing is enabled"
+    if result["verdict"]["end"] == "livelock" and prop in ("C06", "C07", "C09"):
+        return len(evs), "livelock: the scheduler keeps taking steps without ever finishing (step budget exhausted)"
     return None
 
 
